@@ -6,6 +6,21 @@ ROOT = os.path.dirname(os.path.dirname(os.path.abspath(__file__)))
 
 # id -> (technique, level text, level note, design ref)
 CHECKS = {
+    "C05": ("covering-map search oracle (does not assume the library's numbering), multiset comparison of isomorphism types with covers the harness builds from its own permutation representations, Todd-Coxeter orders and indices, path lifting",
+            "Exploration: five constructors on all small 2D/3D bases: oriented_cover, covers(k<=5), cover_for_table, finite_universal_cover (trivial group re-derived by enumerating the cover's own textbook presentation), subgroup_cover (index and closed lifts).",
+            "Trusted: model covering-map search, harness low-index and Todd-Coxeter; subgroup covers rely on C09's validation of the library's inner edges.", "6/C05"),
+    "C09": ("differential monitor against the textbook presentation built by the harness: BigInt abelianisation, low-index profile, Todd-Coxeter order; structural clauses checked on the returned maps; inner_edges via the textbook presentation with those facets as the trivial set",
+            "Exploration: ~20k symbols (2D <= 4-6 chambers, 3D <= 3-4, both representations, renumbered, covers up to 384 chambers).",
+            "Trusted: textbook presentation, SNF, low-index and Todd-Coxeter oracles. Isomorphism is tested through the invariants the property names.", "6/C09"),
+    "C15": ("certificate monitor: covering map found by model search, orientedness, unbranchedness, torus by Euler characteristic (2D), H1 = Z^3 by independent presentation + BigInt SNF (3D), sheet-number whitelist; metamorphic over renumberings and dual; corpus must be found",
+            "Exploration: all euclidean 2D symbols up to 4 (6) chambers; all 3D domain symbols up to 3 (4) chambers with variants; 19 corpus symbols.",
+            "Trusted: model covering search, textbook pi1 + SNF. Corpus = symbols quoted by the repository.", "6/C15"),
+    "C16": ("repeated-execution monitor (hash-order nondeterminism = schedules): every call's result validated structurally (sphere tiles/vertex figures by exact curvature), H1 and low-index profile compared with the input, hook-recorded move traces; corpus results compared across numberings and repetitions",
+            "Exploration: ~100 (thorough ~700) inputs x 5 (25) repetitions: pseudo-toroidal covers of corpus and universe symbols, finite universal covers and finite-group covers.",
+            "Trusted: orbifold curvature model, textbook pi1 + SNF; library presentation as instrument for low-index counts on large results (validated by C09). None results not judged.", "6/C16"),
+    "C17": ("metamorphic + certificate monitor: verdict class across renumberings, dual, representation, repetitions and covers; yes-certificate re-derived independently (cover, H1 = Z^3, subgroup counts 1/7/13); corpus must be yes; reason-string histogram",
+            "Exploration: all 3D domain symbols up to 3 (4) chambers plus sampled larger ones, each in 5 variants, deep-pipeline symbols repeated and compared with their covers.",
+            "Trusted: as C15/C16. Euclidicity itself is not decided, only consistency, certificates and the corpus.", "6/C17"),
     "C01": ("hostile-input workload (token mutations, prefixes/suffixes, token soup, hostile numbers) under catch_unwind, with big-number strings parsed in a child process under RLIMIT_AS so that allocation aborts are observed; structural round-trip oracle against the generating model",
             "Exploration: every string's outcome is classified ok / err / panic / abort; accepted symbols are re-read through op/v and validated (involutions on 1..size, degrees constant on orbits and multiples of r); round trips of ~5k symbols incl. 100-1000 chamber covers judged structurally against the model that produced them.",
             "Trusted: the model's own printer/reader of the text format. Strings are sampled beyond the enumerated prefixes/suffixes.", "6/C01"),
